@@ -1,5 +1,10 @@
 import Qryn.Read.Tables
+import Qryn.Proofs.ConfineRead
+import Qryn.Prof.SelectorCtx
 import Driver.C00Sql
+import Driver.C08
+import Driver.C11
+import Driver.C17
 namespace Driver.C13
 open Qryn Qryn.Sql Qryn.Confine
 
@@ -7,6 +12,21 @@ def withReport (cfg : Cfg) (w : Window) : List Alias → List (Alias × Sel) →
   | _, [] => []
   | ok, (a, s) :: rest =>
     (a.text ++ "=" ++ toString (bodyConfined cfg w ok s)) :: withReport cfg w (if yieldsOk cfg 64 ok s then a :: ok else ok) rest
+
+/-- the hypotheses of the `all_scans_confined_*` theorems on the table classification, for `lokiCfg` -/
+def lokiOk (c : LogQL.Ctx) : Bool :=
+  lokiCfg.kind c.samplesTable == .data && lokiCfg.kind c.ginTable == .index && lokiCfg.kind c.tsTable == .index &&
+    lokiCfg.kind c.tsDistTable == .index
+def traceOk (c : TraceQL.Ctx) : Bool :=
+  lokiCfg.kind c.attrsTable == .index && lokiCfg.kind c.attrsDistTable == .index && lokiCfg.kind c.tracesTable == .data &&
+    lokiCfg.kind c.tracesDistTable == .data && lokiCfg.byId c.tracesTable && lokiCfg.byId c.tracesDistTable
+
+def traceOut (c : TraceQL.Ctx) (r : TraceQL.PlanM Sel) : String :=
+  match r with
+  | .ok s => s!"{hexOut (renderSel s)} {confinedDeep lokiCfg (winT c) 64 s} {traceOk c}"
+  | .error _ => "ERR"
+
+def matchers? (s : String) : Option (List LogQL.Matcher) := Driver.C07.list? Driver.C07.matcher? s
 
 def handle : List String → Option String
   | ["c13confined", fromNs, toNs, slack, needType, tp, dump] => do
@@ -22,5 +42,62 @@ def handle : List String → Option String
           toString (bodyConfined lokiCfg w (okDeep lokiCfg 64 [] ws) s))
   | ["c13classified"] => some (toString allClassified)
   | ["c13date", sec] => do some (hexOut (Time.formatDate (← sec.toInt?)))
+  -- the planner models the `all_scans_confined_*` theorems are about: text, the window's slack, the verdict of the
+  -- predicate on the model's own plan (true by the theorem) and whether `lokiCfg` satisfies the theorem's hypotheses
+  | "c13metric" :: args => do
+    let (c, rest) ← Driver.C08.mctx? args
+    let (q, rest') ← Driver.C08.query? rest
+    if !rest'.isEmpty then none
+    let s := LogQL.planMetric c q
+    let w := winMetric c q
+    some s!"{hexOut (renderSel s)} {w.slackNs} {w.tp} {confined lokiCfg w s} {lokiOk c.toCtx && lokiCfg.kind c.metrics15Table == .data}"
+  | "c13trace" :: args => do
+    let (c, rest) ← Driver.C11.ctx? args
+    match rest with
+    | [sc] => do some (traceOut c (TraceQL.plan c (← Driver.C11.parseScript sc)))
+    | _ => none
+  | "c13tags" :: args => do
+    let (c, rest) ← Driver.C11.ctx? args
+    match rest with
+    | [sc] => do some (traceOut c (TraceQL.planTags c (← Driver.C11.parseScript sc)))
+    | _ => none
+  | "c13tvalues" :: args => do
+    let (c, rest) ← Driver.C11.ctx? args
+    match rest with
+    | [kv, key, sc] => do
+      let kvt ← Driver.C07.str? kv
+      let r := traceOut c (TraceQL.planValues c kvt (← ofHex key) (← Driver.C11.parseScript sc))
+      some (if r = "ERR" then r else r ++ s!" {lokiCfg.kind kvt == .index}")
+    | _ => none
+  | "c13series" :: args => do
+    let (c, rest) ← Driver.C07.ctx? args
+    match rest with
+    | [ms, _] => do
+      let s := LogQL.planSeries c (← matchers? ms)
+      some s!"{hexOut (renderSel s)} {confined lokiCfg (winOf c) s} {lokiOk c}"
+    | _ => none
+  | "c13values" :: args => do
+    let (c, rest) ← Driver.C07.ctx? args
+    match rest with
+    | [key, ms, _] => do
+      let q : Option (List LogQL.Matcher) ← if ms = "NOSEL" then some none else (matchers? ms).map some
+      let s := LogQL.planValues c (← ofHex key) q
+      some s!"{hexOut (renderSel s)} {confined lokiCfg (winOf c) s} {lokiOk c}"
+    | _ => none
+  | "c13prom" :: kind :: args => do
+    let (c, rest) ← Driver.C07.ctx? args
+    match rest with
+    | [m15, start, end_, step, range, fn, ms] => do
+      let h : Prom.Hints := ⟨← start.toInt?, ← end_.toInt?, ← step.toInt?, ← range.toInt?, ← Driver.C07.str? fn⟩
+      let m15 ← Driver.C07.str? m15
+      let mss ← matchers? ms
+      let s := if kind = "raw" then Prom.transpileRaw c h mss else Prom.transpileDown c m15 h mss
+      some s!"{hexOut (renderSel s)} {confined lokiCfg (winOf c) s} {lokiOk c && lokiCfg.kind m15 == .data}"
+    | _ => none
+  | ["c13prof", table, fromNs, toNs, sels] => do
+    let sels ← Driver.C17.allSome ((Driver.C17.parseList sels).map Driver.C17.parseSelector)
+    match Prof.profSelector (← Driver.C07.str? table) (← fromNs.toInt?) (← toNs.toInt?) sels with
+    | none => some "unsupported"
+    | some q => some (hexOut q.render)
   | _ => none
 end Driver.C13
